@@ -66,6 +66,20 @@ theorem uniq_appendL (v : α) (l : List α) : uniq (appendL v l) = (uniq l).filt
   unfold appendL
   rw [uniq_append_singleton v _ (by simp), filter_uniq]
 
+/-! normal forms of one action with a one-piece value -/
+theorem applyL_prepend_single (v : α) (old : List α) :
+    applyL false true [v] old = v :: (uniq old).filter (· != v) := by
+  simp [applyL, prependL, uniq]
+
+theorem applyL_append_single (v : α) (old : List α) :
+    applyL true true [v] old = (uniq old).filter (· != v) ++ [v] := by
+  simp only [applyL, loopVals_single, List.foldl_cons, List.foldl_nil, if_true]
+  exact uniq_appendL v old
+
+theorem applyL_remove_single (append : Bool) (v : α) (old : List α) :
+    applyL append false [v] old = (uniq old).filter (· != v) := by
+  simp [applyL, removeL, filter_uniq]
+
 end
 
 /-! ## string layer -/
